@@ -207,6 +207,8 @@ def cases(tier, seed):
     for d in (3, 4):
         for j in range(2):
             add(cls='Union', d=d, member='M', cloud='box', splits=2, n=200, unit=True, npm=d + 20)
+    add(cls='Union', d=3, member='M', cloud='slab', splits=0, n=200, unit=True)       # dim_cube = [0, 1, 1]
+    add(cls='Union', d=3, member='M', cloud='slab', splits=1, n=300, unit=True)
     # a broad mode with a sharp spike inside it: member volumes differ by ~10^3, the small member often gets none of the 1000 proposals of a round
     add(cls='Union', d=2, member='E', cloud='spike', splits=1, n=800, unit=True, n_samples=9000000, n_ref=1000000)
     for nets in (0, 1):
